@@ -1,8 +1,8 @@
 //! C17, external-backend part: every failure kind of the stand-in external solver at every call
 //! position, (a) in-process through ExternalSatSolver on the library API, (b) through the
 //! `crustabri solve --external-sat-solver` command line.
-use crate::checks::c05::{has_answer_line, run as run_process_once, Invocation, BIN_SOLVE};
-use crate::checks::c15::FAKE_SAT;
+use crate::checks::c05::{has_answer_line, run as run_process_once, Invocation, bin_solve};
+use crate::checks::c15::fake_sat;
 use crate::checks::c16::{external_factory, scratch_dir};
 use crate::choicesat::catch;
 use crate::refmodel::Graph;
@@ -108,7 +108,7 @@ impl<'a> BuiltVisitor for LibSweep<'a> {
 
 pub fn run_process(rep: &mut Report, tier: Tier) {
     let thorough = tier == Tier::Thorough;
-    if !std::path::Path::new(FAKE_SAT).exists() {
+    if !std::path::Path::new(fake_sat()).exists() {
         rep.machinery_errors.push("fake_sat not built".into());
         return;
     }
@@ -144,7 +144,7 @@ pub fn run_process(rep: &mut Report, tier: Tier) {
         rep.add_violation(v);
     }
     // (b) command line
-    if !std::path::Path::new(BIN_SOLVE).exists() {
+    if !std::path::Path::new(bin_solve()).exists() {
         rep.machinery_errors.push("repository binaries not built".into());
         return;
     }
@@ -181,12 +181,12 @@ pub fn run_process(rep: &mut Report, tier: Tier) {
             let _ = std::fs::remove_file(&cnt);
             let _ = std::fs::remove_file(&mark);
             let mut a = vec!["solve".to_string(), "-f".into(), dir.join(format!("g{}.af", gi)).display().to_string(), "-p".into(), problem.clone(), "--logging-level".into(), "off".into(), "-c".into(),
-                "--external-sat-solver".into(), FAKE_SAT.into(), "--external-sat-solver-opt".into(), format!("cnt={}", cnt.display()), format!("mark={}", mark.display()), format!("fail={}@{}", mode, k)];
+                "--external-sat-solver".into(), fake_sat().into(), "--external-sat-solver-opt".into(), format!("cnt={}", cnt.display()), format!("mark={}", mark.display()), format!("fail={}@{}", mode, k)];
             if let Some(x) = arg {
                 a.insert(5, "-a".into());
                 a.insert(6, x.to_string());
             }
-            let inv = Invocation { bin: BIN_SOLVE, args: a };
+            let inv = Invocation { bin: bin_solve(), args: a };
             let r = run_process_once(&inv);
             acc.runs += 1;
             let calls: usize = std::fs::read_to_string(&cnt).ok().and_then(|s| s.trim().parse().ok()).unwrap_or(0);
